@@ -34,7 +34,7 @@ import os
 ANALYSED = [
     "main.py", "block.py", "cross_block.py", "constraint.py", "base_constraint.py", "primitive.py",
     "derivation_processor.py", "design_graph.py", "design_partition.py", "sample_conversion.py",
-    "check_mismatch.py", "level.py", "weight.py", "iter.py", "argcheck.py", "backend.py", "beforestart.py",
+    "check_mismatch.py", "level.py", "weight.py", "iter.py", "backend.py", "beforestart.py",
     "distribution.py",
     "sampling_strategy/base.py", "sampling_strategy/iterate_sat.py", "sampling_strategy/iterate.py",
     "sampling_strategy/uniform.py", "sampling_strategy/cmsgen.py", "sampling_strategy/unigen.py",
@@ -111,6 +111,8 @@ BUILTINS = {
 EXTERNAL_OK_MODULES = {"typing", "itertools", "functools", "math", "copy", "networkx", "random", "os", "csv", "time",
                        "inspect", "abc", "dataclasses", "enum", "operator", "numpy", "tqdm", "sys", "collections",
                        "warnings", "json", "re"}
+# sweetpea modules that only test types (isinstance) of what they are given
+PURE_SWEETPEA_MODULES = {"sweetpea._internal.argcheck"}
 TRACKED_FAMILIES = {"Block", "Block(arg)", "Constraint", "Constraint(copy)", "Factor", "Level"}
 FORBIDDEN_NAMES = {"exec", "eval", "vars", "globals", "locals", "delattr", "compile", "__import__"}
 
@@ -223,7 +225,8 @@ class _FuncAnalysis(ast.NodeVisitor):
     """One function body, statements in source order, with a small environment
     name -> FRESH | ("alias", owner, attr) | ("param", owner-or-None) | ("unknown",)."""
 
-    def __init__(self, index, report, key, node, cls, rel):
+    def __init__(self, index, report, key, node, cls, rel, self_new=False):
+        self.self_new = self_new
         self.ix = index
         self.rep = report
         self.key = key
@@ -240,13 +243,17 @@ class _FuncAnalysis(ast.NodeVisitor):
             self.env[a.arg] = ("param", over.get(a.arg, NAME_OWNER.get(a.arg)))
         if cls and args.args and args.args[0].arg == "self":
             fam = self.ix.family(cls)
-            if node.name in ("__init__", "__post_init__", "__new__", "__deepcopy__") and fam != "Block":
-                fam += "(new)"
+            if (node.name in ("__init__", "__post_init__", "__new__", "__deepcopy__") or self_new) and fam != "Block":
+                fam += "(new)"      # the object under construction (also in methods a constructor calls on self)
             self.env["self"] = ("param", fam)
         if cls and args.args and args.args[0].arg == "cls":
             self.env["cls"] = FRESH
 
     # ---------------------------------------------------------------- helpers
+    def self_is_new(self):
+        k = self.env.get("self")
+        return bool(k) and k != FRESH and k[0] == "param" and bool(k[1]) and k[1].endswith("(new)")
+
     def where(self, node):
         return "%s:%d" % (self.rel, getattr(node, "lineno", 0))
 
@@ -576,8 +583,8 @@ class _FuncAnalysis(ast.NodeVisitor):
         k = self.env.get(name)
         if k is not None:
             # calling a local value / parameter (callback, predicate, class held in a variable)
-            if k != FRESH and k[0] == "param" and name in ("proc", "fn", "pred", "predicate", "constraint_function"):
-                self.opaque_call(node, "callback parameter " + name)
+            if name in ("proc", "fn", "pred", "predicate", "constraint_function"):
+                self.opaque_call(node, "callback " + name)
                 return
             if k == FRESH:
                 return      # local lambda / def / class: its body is analysed where it is defined
@@ -609,7 +616,7 @@ class _FuncAnalysis(ast.NodeVisitor):
             return
         if name in imp:
             mod = imp[name]
-            if mod.split(".")[0] in EXTERNAL_OK_MODULES:
+            if mod.split(".")[0] in EXTERNAL_OK_MODULES or mod in PURE_SWEETPEA_MODULES:
                 return      # generic library code: does not know sweetpea's attributes
             if mod in OPAQUE_MODULES or mod.startswith("sweetpea._internal.core"):
                 self.opaque_call(node, "%s.%s" % (mod, name))
@@ -633,7 +640,7 @@ class _FuncAnalysis(ast.NodeVisitor):
         # super().m(...)
         if isinstance(recv, ast.Call) and isinstance(recv.func, ast.Name) and recv.func.id == "super":
             for key in self.ix.methods.get(m, []):
-                self.calls.add(key)
+                self.calls.add(key + (self.self_is_new(),))
             return
         # module.function(...)
         if isinstance(recv, ast.Name) and recv.id in self.ix.imports.get(self.rel, {}) and recv.id not in self.env:
@@ -650,8 +657,9 @@ class _FuncAnalysis(ast.NodeVisitor):
         if not cands:
             cands = list(self.ix.methods.get(m, []))
         if cands:
+            on_new_self = isinstance(recv, ast.Name) and recv.id == "self" and self.self_is_new()
             for key in cands:
-                self.calls.add(key)
+                self.calls.add(key + (True,) if on_new_self else key)
         if m in MUTATORS:
             kind = self.classify(recv)
             if kind == FRESH:
@@ -697,8 +705,10 @@ def analyse(entries, repo="/repo"):
         if key in seen:
             continue
         seen.add(key)
+        flag = len(key) == 3
+        key = key[:2]
         node, cls, rel = ix.funcs[key]
-        fa = _FuncAnalysis(ix, rep, key, node, cls, rel)
+        fa = _FuncAnalysis(ix, rep, key, node, cls, rel, self_new=flag)
         try:
             fa.run()
         except Exception as e:  # noqa - the analyser itself failing is a broken tie
@@ -706,7 +716,7 @@ def analyse(entries, repo="/repo"):
         for k2 in fa.calls:
             if k2 not in seen:
                 todo.append(k2)
-    rep.reached = sorted("%s:%s" % k for k in seen)
+    rep.reached = sorted(set("%s:%s" % k[:2] for k in seen))
     rep.unrecognised = sorted(set(rep.unrecognised))
     return rep
 
